@@ -480,6 +480,7 @@ type Contract struct {
 	WrapOK   []string // source texts of conversions/operations whose wrap-around is intended
 	Cases    []CaseSplit
 	AltPkg   string // package of the interface contract this one was merged from
+	SafetyTags []string // properties that panic-freedom / overflow obligations of this function count for (default C04)
 }
 
 // CaseSplit: the entry state is split by the value of Expr (one path per listed value plus one for
@@ -535,7 +536,7 @@ func (c ContractError) Error() string { return "CONTRACT-ERROR: " + c.msg }
 
 var clauseKeywords = map[string]bool{"func": true, "requires": true, "ensures": true, "modifies": true, "loop": true,
 	"spec": true, "axiom": true, "pred": true, "ghost": true, "inline": true, "trusted": true, "let": true, "tags": true,
-	"noeffect": true, "pure": true, "mode": true, "update": true, "const": true, "alloc": true, "implements": true, "end": true, "any": true, "wrapok": true, "ghostinit": true, "cases": true, "typeinv": true}
+	"noeffect": true, "pure": true, "mode": true, "update": true, "const": true, "alloc": true, "implements": true, "end": true, "any": true, "wrapok": true, "ghostinit": true, "cases": true, "typeinv": true, "safetytags": true}
 
 // parseContractText parses the //@ lines of one file. pkg is the package path ("" for library specs).
 func (ss *SpecSet) parseContractText(file, pkg string, lines []string, lineNos []int) error {
@@ -773,6 +774,11 @@ func (ss *SpecSet) parseContractText(file, pkg string, lines []string, lineNos [
 				return fail(it, err.Error())
 			}
 			ss.GhostInits[pkg+"#"+tname] = append(ss.GhostInits[pkg+"#"+tname], LetDef{Name: strings.TrimSpace(lhs[:k]), Expr: e})
+		case "safetytags":
+			if cur == nil {
+				return fail(it, "safetytags outside func")
+			}
+			cur.SafetyTags = splitList(rest)
 		case "tags":
 			if cur == nil {
 				return fail(it, "tags outside func")
